@@ -87,7 +87,7 @@ end
 def isoWeek (d : Int) : Int :=
   let thursday := d - weekday d + 3
   let y := (civil thursday).1
-  let jan1 := monthStart (((y - 1970) * 12).toNat)
+  let jan1 := monthStart (((y - 1600) * 12).toNat)
   (thursday - jan1) / 7 + 1
 
 inductive Period | weekly | monthly | yearly
